@@ -34,6 +34,14 @@ type c19Case struct {
 	Reset   bool   `json:"reset,omitempty"`  // the outgoing counter is reset through the counter store before the last send
 	Remove  int    `json:"remove,omitempty"` // k > 0: the application removes its k-th handler again, with the id registration gave it, before the sends
 	Resend  bool   `json:"resend,omitempty"` // after the sends the peer asks for everything again: the retransmissions pass the handlers too
+	// Final: after the sends the session itself sends a Logout ("logout" = Session.Logout, "stop" =
+	// Session.Stop).  FailAt 4 makes the store refuse exactly that message; RefuseFinal registers a handler
+	// for the Logout type that refuses it.  Either way it must not be transmitted.
+	Final       string `json:"final,omitempty"`
+	RefuseFinal bool   `json:"refuse_final,omitempty"`
+	// Backlog > 0 (inbound): the handler is stopped while the dispatcher is inside a callback and this many
+	// further messages are queued; every one of them is still offered to the handlers, in order.
+	Backlog int `json:"backlog,omitempty"`
 }
 
 // failingStore wraps the memory store and logs every Save.
@@ -75,6 +83,38 @@ func c19Run(c c19Case) (string, string) {
 			return fixgen.CreateHeartbeat().SetTestReqID("app")
 		}
 		return fixgen.NewMarketDataRequest().SetMDReqID("r")
+	}
+	if c.Inbound && c.Backlog > 0 {
+		var got []string
+		gate := make(chan struct{}, 1)
+		w.h.HandleIncoming(simplefixgo.AllMsgTypes, func(data []byte) bool {
+			id, _ := get(data, "11")
+			got = append(got, "A:"+id)
+			if id == "m0" {
+				<-gate // the dispatcher is busy in here while the rest arrives and the handler is stopped
+			}
+			return true
+		})
+		w.h.HandleIncoming("D", func(data []byte) bool {
+			id, _ := get(data, "11")
+			got = append(got, "t:"+id)
+			return true
+		})
+		var want []string
+		for i := 0; i <= c.Backlog; i++ {
+			id := "m" + fmt.Sprint(i)
+			want = append(want, "A:"+id, "t:"+id)
+			w.h.ServeIncoming(w.msg("D", "11="+id))
+		}
+		vsched.Settle()
+		w.h.Stop()
+		vsched.Settle()
+		gate <- struct{}{}
+		vsched.Settle()
+		if strings.Join(got, ",") != strings.Join(want, ",") {
+			return "inbound-backlog-not-offered-to-handlers", fmt.Sprintf("backlog %d: offered %v want %v", c.Backlog, got, want)
+		}
+		return "", ""
 	}
 	if c.Inbound {
 		// incoming: all-types handlers, then the handlers of the message's own type, each in registration order
@@ -282,6 +322,38 @@ func c19Run(c c19Case) (string, string) {
 			}
 		}
 	}
+	if c.Final != "" {
+		if c.RefuseFinal {
+			w.h.HandleOutgoing("5", func(msg simplefixgo.SendingMessage) bool { return false })
+		}
+		log = log[:0]
+		w.take()
+		if c.Final == "stop" {
+			_ = w.s.Stop()
+		} else {
+			_ = w.s.Logout()
+		}
+		vsched.Settle()
+		outs := w.take()
+		blocked := c.FailAt == 4 || c.RefuseFinal
+		n5 := countType(outs, "5")
+		if blocked && n5 != 0 {
+			why := "refused by an outgoing handler"
+			if c.FailAt == 4 {
+				why = "not saved (the store failed)"
+			}
+			return "final-logout-transmitted-despite-refusal", fmt.Sprintf("%s: the Logout was %s, yet it was transmitted: %s (call log %v)", c.Final, why, outsStr(outs), log)
+		}
+		if !blocked {
+			if n5 != 1 {
+				return "final-logout-not-transmitted-once", fmt.Sprintf("%s: outs=[%s]", c.Final, outsStr(outs))
+			}
+			if len(log) == 0 || !strings.HasPrefix(log[0], "save#") {
+				return "not-saved-first", fmt.Sprintf("%s: call log %v", c.Final, log)
+			}
+		}
+		return "", ""
+	}
 	if c.Resend {
 		// the peer asks for everything again: each retransmission passes the outgoing handlers like a
 		// first transmission, and what the last handler saw is what goes out
@@ -313,8 +385,26 @@ func c19Run(c c19Case) (string, string) {
 	return "", ""
 }
 
+func c19BacklogScenario(name string, p map[string]any) *schedScenario {
+	role, n := pstr(p, "role"), pint(p, "n")
+	var sig, detail string
+	sc := &schedScenario{Name: "c19b", Params: p, Strict: true, Delay: true}
+	sc.Body = func() { sig, detail = c19Run(c19Case{Role: role, Inbound: true, Backlog: n}) }
+	sc.Check = func(r *vsched.Result) (string, string) { return sig, detail }
+	sc.Outcome = func() string { return fmt.Sprintf("backlog %d offered=%v", n, sig == "") }
+	return sc
+}
+
 func runC19(R *vlib.Out) {
 	if *vlib.ReplayPath != "" {
+		var probe struct {
+			Scenario string `json:"scenario"`
+		}
+		vlib.LoadReplay(&probe)
+		if probe.Scenario == "c19b" {
+			replaySched(R, c19BacklogScenario)
+			return
+		}
 		var c c19Case
 		vlib.LoadReplay(&c)
 		R.Eval()
@@ -366,6 +456,30 @@ func runC19(R *vlib.Out) {
 		return true
 	}
 	for _, role := range []string{"acc", "ini"} {
+		for _, n := range []int{1, 2, 3, 5, 8} {
+			if !try(c19Case{Role: role, Inbound: true, Backlog: n}) {
+				return
+			}
+			// ... and under every schedule within delay bound 1 (which of the dispatcher's ready select cases -
+			// the queue or the stop signal - is taken first is a choice point)
+			sc := c19BacklogScenario("c19b", map[string]any{"role": role, "n": n})
+			sc.Bound = 1
+			if *vlib.Tier == "thorough" {
+				sc.Bound = 2
+			}
+			scenarioBudget = vlib.Remaining() / 8
+			exploreSched(R, sc)
+			scenarioBudget = 0
+		}
+		for _, final := range []string{"logout", "stop"} {
+			for _, o := range []string{"", "A", "At"} {
+				if !try(c19Case{Role: role, Order: o, MsgType: "0", Final: final}) ||
+					!try(c19Case{Role: role, Order: o, MsgType: "0", Final: final, FailAt: 4}) ||
+					!try(c19Case{Role: role, Order: o, MsgType: "V", Final: final, RefuseFinal: true}) {
+					return
+				}
+			}
+		}
 		for _, o := range orders {
 			if !try(c19Case{Role: role, Order: o, Inbound: true}) || !try(c19Case{Role: role, Order: o, Inbound: true, Late: true}) {
 				return
